@@ -77,7 +77,7 @@ RO_RAW = [("managed_objects", "uid", "Unique Identifier"),
 NAME_POOL = ["n0", "n1", "n2", "n3", "n4", "n5", {"v": "u6", "t": "URI"}]
 GROUP_POOL = ["g0", "g1", "g2", "g3"]
 ASI_POOL = [{"ns": "a", "data": "d0"}, {"ns": "a", "data": "d1"}, {"ns": "b", "data": "d0"},
-            {"ns": "b", "data": "d2"}]
+            {"ns": "b", "data": "d2"}, {"ns": "a", "data": ""}, {"ns": "", "data": "d0"}]
 POOLS = {"Name": NAME_POOL, "Object Group": GROUP_POOL, "Application Specific Information": ASI_POOL}
 MASKS = [None, 0, 0, 12, F.ALL_MASK]
 # attribute samples a KMIP 2.0 request can carry (the library cannot encode the others by tag)
@@ -889,7 +889,7 @@ def gen_history(draw, max_steps=25):
             "otype": draw(st.sampled_from(H.OBJECT_TYPES)),
             "names": draw(st.lists(st.integers(0, 6), min_size=draw(sizes), max_size=3, unique=True)),
             "groups": draw(st.lists(st.integers(0, 3), min_size=draw(sizes), max_size=3)),
-            "asi": draw(st.lists(st.integers(0, 3), min_size=draw(sizes), max_size=3, unique=True)),
+            "asi": draw(st.lists(st.integers(0, 5), min_size=draw(sizes), max_size=3, unique=True)),
             "mask": draw(st.sampled_from(MASKS)),
             "sensitive": draw(st.sampled_from([None, False, False, True])),
             "owner": draw(st.sampled_from(["alice", "alice", "alice", "bob"])),
